@@ -76,6 +76,18 @@ class ManagerSpins(ManagerCrashed):
         return "busy_loop_on_dead_connection"
 
 
+class _Writable:
+    """membership test 'conn was able to accept data in that round'"""
+
+    __slots__ = ("blocked",)
+
+    def __init__(self, blocked, net):
+        self.blocked = frozenset(blocked)
+
+    def __contains__(self, conn):
+        return conn not in self.blocked
+
+
 class MgrSelect:
     """``select`` module global of pyrtma.manager."""
 
@@ -124,7 +136,7 @@ class World:
 
     def __init__(self, choices: Choices, *, timecode=False, log_level=logging.ERROR,
                  send_msg_timing=True, p_notwritable=(0, 1), arrival_bias=5,
-                 max_rounds=20000):
+                 max_rounds=20000, debug=None):
         self.choices = choices
         self.clock = Clock()
         self.baton = Baton()
@@ -136,6 +148,8 @@ class World:
         self.p_notwritable = p_notwritable      # (num, den) per connection per probe
         self.arrival_bias = arrival_bias        # weight of "everything arrives"
         self.max_rounds = max_rounds
+        # MessageManager(debug=...) is a configuration like any other: drawn per run unless given
+        self.debug = bool(choices.flag("cfg.mgr_debug", 1, 4)) if debug is None else bool(debug)
         self.mgr = None
         self.mgr_task: Optional[Task] = None
         self.mgr_state = "new"                  # new | select | recv | running | dead
@@ -205,7 +219,7 @@ class World:
         with disable_message_validation():
             mgr = M.MessageManager(ip_address="127.0.0.1", port=self.PORT,
                                    timecode=self.timecode, log_level=logging.CRITICAL + 10,
-                                   debug=False, send_msg_timing=self.send_msg_timing)
+                                   debug=self.debug, send_msg_timing=self.send_msg_timing)
         mgr.logger.enable_console = False
         mgr.logger.set_all_levels(self.log_level)
         self._loggers.append(mgr.logger.logger.name)
@@ -284,6 +298,7 @@ class World:
             self.round_cap_hit = True
             raise SimShutdown()
         self._arrivals(rlist)
+        self._round_truth()
         ready = [s for s in rlist if s.readable()]
         if not ready:
             net.stats["idle_rounds"] += 1
@@ -323,28 +338,35 @@ class World:
             else:
                 s.arrive()
 
-    def _mgr_wprobe(self, wlist):
+    def _round_truth(self):
+        """Ground truth for 'can accept data' in this round, decided by the simulator for EVERY live
+        manager-side connection -- independent of which sockets the manager later asks about."""
         net = self.net
         ch = self.choices
-        cands = [s for s in wlist if s.kind == "conn"]
+        cands = [s for s in net.mgr_socks.values() if not s.closed and s.kind == "conn"]
         num, den = self.p_notwritable
+        blocked = set()
         forced = None
         if self.force_writable is not None:
             forced = self.force_writable(net.round, cands)
         if forced is not None:
-            writable = [s for s in cands if s.idx in forced]
-        elif num and ch.flag("wr.some", 1, 2):
-            writable = []
+            blocked = {s.idx for s in cands if s.idx not in forced}
+        elif num and cands and ch.flag("wr.some", 1, 2):
             for s in cands:
                 if ch.flag("wr.notwritable", num, den):
+                    blocked.add(s.idx)
                     net.stats["notwritable"] += 1
-                else:
-                    writable.append(s)
-        else:
-            writable = cands
-        ws = frozenset(s.idx for s in writable)
-        net.wprobe[net.round] = ws
-        net.log("MGR_WPROBE", net.round, tuple(sorted(ws)), tuple(s.idx for s in cands))
+        self.round_blocked = blocked
+        # connections accepted later in this round have empty buffers: writable
+        net.wprobe[net.round] = _Writable(blocked, net)
+        net.log("ROUND_WRITABLE", net.round, tuple(sorted(blocked)))
+
+    def _mgr_wprobe(self, wlist):
+        net = self.net
+        cands = [s for s in wlist if s.kind == "conn"]
+        blocked = getattr(self, "round_blocked", set())
+        writable = [s for s in cands if s.idx not in blocked]
+        net.log("MGR_WPROBE", net.round, tuple(sorted(s.idx for s in writable)), tuple(s.idx for s in cands))
         return [], writable, []
 
     def on_shuffle(self, lst):
